@@ -42,9 +42,10 @@ Section BuilderProofs.
   (** castNode returns the node itself, a String() call on it (only with
       :stringer), or a conversion of it (only with :typecast). *)
   Inductive cast_shape (r : node) (t : ty) : node -> Prop :=
-  | CSame : cast_shape r t r
-  | CStringer : o_stringer o = true -> cast_shape r t (NStringer r)
-  | CCast e : o_typecast o = true -> cast_shape r t (NCast r t e).
+  | CSame : assignable (d_env d) (expr_type r) t = true -> cast_shape r t r
+  | CStringer : o_stringer o = true -> assignable (d_env d) string_ty t = true ->
+                complies_stringer (d_env d) (expr_type r) = true -> cast_shape r t (NStringer r)
+  | CCast e : o_typecast o = true -> convertible (d_env d) (expr_type r) t = true -> cast_shape r t (NCast r t e).
 
   Lemma new_typecast_shape t r n :
     new_typecast d t r = Ok (Some n) -> exists e, n = NCast r t e.
@@ -63,14 +64,14 @@ Section BuilderProofs.
     cast_node d o mpos t r = (Ok (Some n), ev) -> cast_shape r t n.
   Proof.
     unfold cast_node.
-    destruct (assignable (d_env d) (expr_type r) t).
-    { intros H. apply ret_ok in H as [H _]. injection H as <-. constructor. }
+    destruct (assignable (d_env d) (expr_type r) t) eqn:Ea.
+    { intros H. apply ret_ok in H as [H _]. injection H as <-. now constructor. }
     destruct (o_stringer o && assignable (d_env d) string_ty t && complies_stringer (d_env d) (expr_type r)) eqn:Es.
     { intros H. apply ret_ok in H as [H _]. injection H as <-.
-      apply andb_true_iff in Es as [Es _]. apply andb_true_iff in Es as [Es _]. now constructor. }
+      apply andb_true_iff in Es as [Es Es3]. apply andb_true_iff in Es as [Es1 Es2]. now constructor. }
     destruct (o_typecast o && convertible (d_env d) (expr_type r) t) eqn:Et.
     2:{ intros H. apply ret_ok in H as [H _]. discriminate. }
-    apply andb_true_iff in Et as [Et _].
+    apply andb_true_iff in Et as [Et Et2].
     intros H. apply rbind_ok in H as (c & e1 & e2 & Hc & Hk & _).
     apply lift_ok in Hc as [Hc _].
     destruct c as [c|].
